@@ -27,7 +27,7 @@ var (
 	thorough = flag.Bool("thorough", false, "thorough tier")
 	harness  = flag.String("harness", "/verif/harness", "path of the verifharness module")
 	plugins  = flag.String("plugins", "curry,uncurry,flip,apply,tuple", "comma separated plugin list")
-	cfg      = flag.String("cfg", "000000", "model variant flags written into every op line: unnamedFixed shadowFixed crossFixed voidFixed zeroFixed lhsFixed")
+	cfg      = flag.String("cfg", "000000000", "model variant flags written into every op line: unnamedFixed shadowFixed crossFixed voidFixed zeroFixed lhsFixed errTypeFixed errRecvFixed typedNilFixed")
 )
 
 func must(err error) {
@@ -361,6 +361,17 @@ func (g *gen) genC16() {
 	for _, t := range funcs.Types {
 		g.add(&funcs.Class{Prop: "C16", Kind: "traverse", Tag: "out:" + t.Kind, In: g.anyType(), Outs: []int{t.ID}})
 	}
+	// ---- custom error types and near-misses wherever derive.IsError decides (accept / refuse, does the
+	// accepted form compile, behaviour where a custom error VALUE is handed over)
+	for i, et := range funcs.ErrNames {
+		okT := func() int { return g.okType() }
+		g.add(&funcs.Class{Prop: "C16", Kind: "compose", Tag: "errty:" + et, Ins: []int{okT()}, Stages: [][]int{{okT()}, {okT()}}, ErrTy: et, ErrAt: "result"})
+		g.add(&funcs.Class{Prop: "C16", Kind: "traverse", Tag: "errty:" + et, In: okT(), Outs: []int{okT()}, ErrTy: et, ErrAt: "result"})
+		g.add(&funcs.Class{Prop: "C16", Kind: "fmape", Tag: "errty:" + et, In: okT(), Outs: g.types(i%3, true), ErrTy: et, ErrAt: "result"})
+		g.add(&funcs.Class{Prop: "C16", Kind: "joine", Tag: "errty:result:" + et, Outs: g.types(1+i%2, true), ErrTy: et, ErrAt: "result"})
+		g.add(&funcs.Class{Prop: "C16", Kind: "joine", Tag: "errty:arg:" + et, Outs: g.types(1+i%2, true), ErrTy: et, ErrAt: "arg"})
+		g.add(&funcs.Class{Prop: "C16", Kind: "toerror", Tag: "errty:" + et, Ps: g.params(naming("named", 1+i%2)), Rs: g.types(i%3, false), ErrTy: et, ErrAt: "arg"})
+	}
 	// ---- toerror
 	for _, s := range []string{"named", "blankall", "blankmix", "unnamed", "f0", "err0", "prefixblank", "gennames"} {
 		for n := 1; n <= 3; n++ {
@@ -375,8 +386,8 @@ func (g *gen) genC16() {
 
 func main() {
 	flag.Parse()
-	if len(*cfg) != 6 || strings.Trim(*cfg, "01") != "" {
-		must(fmt.Errorf("-cfg wants six binary digits"))
+	if len(*cfg) != 9 || strings.Trim(*cfg, "01") != "" {
+		must(fmt.Errorf("-cfg wants nine binary digits"))
 	}
 	g := &gen{rng: rand.New(rand.NewSource(*seed)), stats: map[string]int{}}
 	want := map[string]bool{}
